@@ -32,6 +32,15 @@ _cur = {}
 
 def _post(what):
     def post(snap, result, exc, args, kwargs):
+        return judge(what, snap, result, exc)
+
+    return post
+
+
+def judge(what, snap, result, exc):
+    """Judges one answer of `the` notation of a structure (also called directly by the workload for
+    answers that did not come through the wrapped getter, e.g. a value already stored on the object)."""
+    if True:
         rec = _cur["rec"]
         if _cur.get("muted"):
             return
@@ -87,8 +96,6 @@ def _post(what):
                     movable = (reg[i], lev[i], low[0])
                     break
             rec.check("optimal.no-lower-level-free", movable is None, lambda: det({"movable": movable}))
-
-    return post
 
 
 def _pre_self(args, kwargs):
@@ -201,6 +208,8 @@ def run_case(case, rec):
         b.dot_bracket
     except Exception:
         pass
+    if pairs and int(core.chash(case)[:2], 16) % 3 == 0:
+        _other_routes(n, pairs, f, rec)
     if f["knotted"] and chash_bit(case):
         # the explicit-solver entry point, on a fresh object
         b2 = mon2d.make_bpseq(n, pairs)
@@ -208,6 +217,49 @@ def run_case(case, rec):
             b2.convert_to_dot_bracket(pulp.PULP_CBC_CMD(msg=False))
         except Exception:
             pass
+
+
+def _text(f, lev):
+    st = ["."] * f["n"]
+    for stem, l in zip(f["stems"], lev):
+        for i, j in stem:
+            st[i - 1] = o2d.OPEN[l]
+            st[j - 1] = o2d.CLOSE[l]
+    return "".join(st)
+
+
+def _other_routes(n, pairs, f, rec):
+    """The same pairing reaching BpSeq by other public routes: parsed from a dot-bracket whose levels are
+    NOT the optimal ones (first-come-first-served text; every level raised by one; levels in reverse
+    stem order) and parsed from BPSEQ text.  `the` notation of the resulting object is judged whether or
+    not it came through the (wrapped) solver path."""
+    from rnapolis import common
+
+    seq = f["seq"]
+    fl = o2d.fcfs_levels(f["reg"])
+    rev = list(reversed(o2d.fcfs_levels(list(reversed(f["reg"]))))) if hasattr(o2d, "fcfs_levels") else fl
+    texts = {"fcfs-levels": _text(f, fl), "levels-raised-by-one": _text(f, [l + 1 for l in fl])}
+    dec, _ = o2d.decode(_text(f, rev))
+    if dec is not None and set(dec) == set(pairs) and o2d.same_level_crossing(dec) is None:
+        texts["levels-from-the-3'-end"] = _text(f, rev)
+    if max(fl) + 1 >= 29:
+        return
+    for how, text in texts.items():
+        try:
+            b = common.BpSeq.from_dotbracket(common.DotBracket.from_string(seq, text))
+            snap = mon2d.snapshot(b)
+            res = b.dot_bracket
+        except Exception as e:
+            rec.violation("optimal.no-crash", {"route": "from_dotbracket:" + how, "text": text, "exception": repr(e)[:200]}, mechanism=f"crash:{type(e).__name__}:from_dotbracket")
+            continue
+        rec.count("route:from_dotbracket:" + how)
+        judge("dot_bracket of BpSeq.from_dotbracket(" + how + ")", snap, res, None)
+    try:
+        b = common.BpSeq.from_string(str(mon2d.make_bpseq(n, pairs)))
+        snap = mon2d.snapshot(b)
+        judge("dot_bracket of BpSeq.from_string(text)", snap, b.dot_bracket, None)
+    except Exception:
+        pass
 
 
 def chash_bit(case):
